@@ -280,6 +280,32 @@ def point_str_precision(ctx):
     num = [c for c in convs if FMT.fullmatch(c) and FMT.fullmatch(c).group(4) in "GgEeFf"]
     ok = len(num) >= 2 and all(FMT.fullmatch(c).group(4) in "Gg" and int(FMT.fullmatch(c).group(3) or 6) >= 12 for c in num)
     ctx.ob("R07.4", "Point.__str__", ok, str(num), fn.lineno, "coordinates are written with 12 significant digits")
+    # trailing zeros may be stripped from a plain decimal only: %G switches to exponent form below 1e-4 (relative offsets between
+    # nearly coincident points) and "1.5E-10".rstrip("0") is "1.5E-1"
+    from ..flow import dominated
+
+    fmt_of = {}
+    for st in stmts_in(fn.body):
+        if isinstance(st, ast.Assign) and len(st.targets) == 1 and isinstance(st.targets[0], ast.Name) and isinstance(st.value, ast.BinOp) and isinstance(st.value.op, ast.Mod) \
+                and isinstance(st.value.left, ast.Constant) and isinstance(st.value.left.value, str) and FMT.fullmatch(st.value.left.value):
+            fmt_of[st.targets[0].id] = FMT.fullmatch(st.value.left.value).group(4)
+    strips = [c for c in ast.walk(fn) if isinstance(c, ast.Call) and isinstance(c.func, ast.Attribute) and c.func.attr == "rstrip" and c.args and isinstance(c.args[0], ast.Constant)
+              and c.args[0].value == "0" and isinstance(c.func.value, ast.Name) and fmt_of.get(c.func.value.id) in ("G", "g", "E", "e")]
+    bad = []
+    for c in strips:
+        v = c.func.value.id
+        letter = "E" if fmt_of[v] in ("G", "E") else "e"
+
+        def no_exponent(test, positive, v=v, letter=letter):
+            if isinstance(test, ast.Compare) and len(test.ops) == 1 and isinstance(test.ops[0], (ast.In, ast.NotIn)) and isinstance(test.left, ast.Constant) and test.left.value == letter \
+                    and isinstance(test.comparators[0], ast.Name) and test.comparators[0].id == v:
+                return isinstance(test.ops[0], ast.NotIn) == positive
+            return False
+
+        if not dominated(c, fn, no_exponent):
+            bad.append("%s.rstrip('0') line %d" % (v, c.lineno))
+    ctx.ob("R07.4", "Point.__str__[zeros stripped from plain decimals only]", not bad, "; ".join(bad) or "%d strip(s), each under an exponent test" % len(strips), fn.lineno,
+           "%G writes small numbers in exponent form; stripping trailing zeros then eats the exponent's last digit: a relative offset of 1.5e-10 is written 1.5E-1 and read back as 0.15")
     # reader side of rotation: degrees
     sp = ctx.fn("Arc._svg_parameterize", "R07.2")
     src = ast.unparse(sp)
